@@ -19,7 +19,9 @@ import (
 	"image/jpeg"
 	"os"
 	"runtime/pprof"
+	"hash/fnv"
 	"sort"
+	"sync"
 	"sync/atomic"
 	"testing"
 	"time"
@@ -136,10 +138,80 @@ func (x *ctx) idle(w int) {
 }
 
 func (x *ctx) report(kind string, c *encCase, fs []finding) {
-	wit := witnessOf(kind, c)
-	for _, f := range fs {
-		x.r.Violation(f.clause, fmt.Sprintf("%s [%s %dx%d, quant=%s, family=%s]", f.detail, c.ci.name, c.w, c.h, c.qname, c.family), wit)
+	// prefer the smallest image: fewest blocks, then fewest non-zero coefficients
+	used := int((c.units() + 1) * int64(c.ci.n))
+	nz := int64(0)
+	h := fnv.New64a()
+	fmt.Fprintf(h, "%s/%d/%d/%s/", c.ci.name, c.w, c.h, c.qname)
+	for i := 0; i < min(used, len(c.blocks)); i++ {
+		for _, v := range c.blocks[i] {
+			if v != 0 {
+				nz++
+			}
+			h.Write([]byte{byte(v), byte(v >> 8)})
+		}
 	}
+	key := []int64{0, c.units() * int64(c.ci.n), nz, int64(h.Sum64() >> 1)}
+	for _, f := range fs {
+		f := f
+		cands.offer(f.clause, key, func() (string, any) {
+			return fmt.Sprintf("%s [%s %dx%d, quant=%s, family=%s]", f.detail, c.ci.name, c.w, c.h, c.qname, c.family), witnessOf(kind, c)
+		})
+	}
+}
+
+// candStore keeps, per signature, the violation with the smallest key seen in
+// the running phase, so that the recorded witness does not depend on which
+// worker got there first; flush hands them to ev in signature order.
+type cand struct {
+	key  []int64
+	what string
+	wit  any
+}
+
+type candStore struct {
+	mu sync.RWMutex
+	m  map[string]*cand
+}
+
+var cands = &candStore{m: map[string]*cand{}}
+
+func keyLess(a, b []int64) bool {
+	for i := 0; i < len(a) && i < len(b); i++ {
+		if a[i] != b[i] {
+			return a[i] < b[i]
+		}
+	}
+	return len(a) < len(b)
+}
+
+func (s *candStore) offer(sig string, key []int64, mk func() (string, any)) {
+	s.mu.RLock()
+	old := s.m[sig]
+	s.mu.RUnlock()
+	if old != nil && !keyLess(key, old.key) {
+		return
+	}
+	what, wit := mk()
+	s.mu.Lock()
+	if old := s.m[sig]; old == nil || keyLess(key, old.key) {
+		s.m[sig] = &cand{append([]int64(nil), key...), what, wit}
+	}
+	s.mu.Unlock()
+}
+
+func (s *candStore) flush(r *ev.Run) {
+	s.mu.Lock()
+	defer s.mu.Unlock()
+	var sigs []string
+	for k := range s.m {
+		sigs = append(sigs, k)
+	}
+	sort.Strings(sigs)
+	for _, k := range sigs {
+		r.Violation(k, s.m[k].what, s.m[k].wit)
+	}
+	s.m = map[string]*cand{}
 }
 
 // ---- phase: allocations (sequential: AllocsPerRun counts process-wide mallocs) ----
@@ -575,8 +647,10 @@ func historyPhase(x *ctx, depth int) (histories, nontrivial int64, states, trans
 				for _, oi := range seq {
 					wit.Ops = append(wit.Ops, ops[oi].name)
 				}
+				key := []int64{1, int64(d), int64(idx)}
 				for _, f := range fs {
-					x.r.Violation(f.clause, fmt.Sprintf("%s [history %v]", f.detail, wit.Ops), wit)
+					f := f
+					cands.offer(f.clause, key, func() (string, any) { return fmt.Sprintf("%s [history %v]", f.detail, wit.Ops), wit })
 				}
 			}
 		})
@@ -725,7 +799,7 @@ func main() {
 		stopProfile = pprof.StopCPUProfile
 	}
 	r := ev.Start("C18", "exploration")
-	r.SetBudget(6*time.Minute, 40*time.Minute)
+	r.SetBudget(12*time.Minute, 60*time.Minute)
 	thorough := r.Thorough()
 	nw := ev.Workers()
 	x := &ctx{r: r, watch: ev.NewWatch(nw)}
@@ -734,6 +808,7 @@ func main() {
 	}
 	t0 := time.Now()
 	phase := func(name string) {
+		cands.flush(r)
 		r.Add("phase_ms_"+name, time.Since(t0).Milliseconds())
 		t0 = time.Now()
 	}
@@ -783,25 +858,6 @@ func main() {
 	r.Add("validity_boundary_cases", validityEvals)
 	phase("validity")
 
-	unitCap := int64(1) << 18
-	if thorough {
-		unitCap = 1 << 40
-	}
-	hq := []qcfg{quants[8], quants[3]} // nil options, ramp
-	full, ronly := headerPhase(x, hq, unitCap)
-	r.Add("header_sweep_images_fully_counted", full)
-	r.Add("header_sweep_images_reset_only", ronly)
-	phase("headers")
-
-	small := []int{1, 2, 7, 8, 9, 15, 16, 17, 31, 32, 33}
-	windows := 64
-	if thorough {
-		windows = 1024
-	}
-	nSize := sizePhase(x, mixed, quants, small, windows)
-	r.Add("size_sweep_images", nSize)
-	phase("size_sweep")
-
 	var nFam int64
 	for _, f := range design {
 		n := familyPhase(x, f, sweepOpts{quants: quants, shifters: 16, tails: 2, stdlibEvery: 1})
@@ -821,6 +877,19 @@ func main() {
 	nHist, nHistNon, nStates, nTrans, _ := historyPhase(x, depth)
 	r.Add("histories", nHist)
 	phase("histories")
+
+	small := []int{1, 2, 7, 8, 9, 15, 16, 17, 31, 32, 33}
+	windows := 64
+	if thorough {
+		windows = 1024
+	}
+	nSize := sizePhase(x, mixed, quants, small, windows)
+	r.Add("size_sweep_images", nSize)
+	phase("size_sweep")
+
+	dst := runDCT(r, thorough)
+	phase("dct")
+
 
 	// extension beyond the DESIGN family: all 64 positions, both ends of every category
 	all64 := make([]int, 64)
@@ -848,8 +917,16 @@ func main() {
 	}
 	phase("extended_families")
 
-	dst := runDCT(r, thorough)
-	phase("dct")
+	unitCap := int64(1) << 18
+	if thorough {
+		unitCap = 1 << 40
+	}
+	hq := []qcfg{quants[8], quants[3]} // nil options, ramp
+	full, ronly := headerPhase(x, hq, unitCap)
+	r.Add("header_sweep_images_fully_counted", full)
+	r.Add("header_sweep_images_reset_only", ronly)
+	phase("headers")
+
 
 	total := newStats()
 	for _, wk := range x.workers {
